@@ -410,6 +410,17 @@ def _replay_chunk(lines):
     return out, acts, nontrivial, samples
 
 
+def _emit_status(tier):
+    r, lines = _emit(f'Gen_EnumStatus_{tier}.cfg', 'Gen_EnumStatus')
+    if tier == 'thorough':          # longer chains over a smaller alphabet
+        r2, more = _emit('Gen_EnumStatus_thorough_deep.cfg', 'Gen_EnumStatus')
+        r.distinct += r2.distinct
+        r.generated += r2.generated
+        r.depth = max(r.depth, r2.depth)
+        lines += more
+    return r, lines
+
+
 def _emit(cfg, module='Gen_EnumLib'):
     r = run_tlc(module, cfg, workers=1, timeout=1500)
     if r.violated or not r.ok:
@@ -797,7 +808,7 @@ def run(chk):
     thunks = [lambda: model_check('EnumLib', f'MC_EnumLib_{tier}.cfg', timeout=1500, workers=2 if quick else 8),
               lambda: validate_traces('Trace_EnumLib', traces + corrupted, 'Trace_EnumLib.cfg', timeout=1500,
                                       collect=('DEVS',), chunk=4000),
-              lambda: _emit(f'Gen_EnumStatus_{tier}.cfg', 'Gen_EnumStatus')]
+              lambda: _emit_status(tier)]
     for cfg in gens:
         thunks.append(lambda cfg=cfg: _emit(cfg))
     # vacuity: the model with a deviation switch (the code as it stands) / a broken design must violate its property
